@@ -73,28 +73,43 @@ fn line_changes(patched_file: &PatchedFile) -> Vec<LineChange> {
     line_changes
 }
 
-/// Returns sorted character ranges in `new` that represent changes from `old`.
+/// Returns sorted byte ranges in `new` that represent changes from `old`.
 fn line_diff(old: &str, new: &str) -> Vec<Range<usize>> {
     let mut result = Vec::new();
     let diff = similar::TextDiff::from_chars(old, new);
+    // `similar` reports char indices, while block positions are byte columns.
+    let byte_offsets: Vec<usize> = new
+        .char_indices()
+        .map(|(offset, _)| offset)
+        .chain(std::iter::once(new.len()))
+        .collect();
+    let byte_at = |char_index: usize| byte_offsets[char_index.min(byte_offsets.len() - 1)];
+    let new_chars_count = byte_offsets.len() - 1;
     let mut prev_op = None;
     for op in diff.ops() {
         match op {
             DiffOp::Delete { new_index, .. } => {
                 if prev_op.is_none_or(|c: &DiffOp| !matches!(c, DiffOp::Delete { .. })) {
-                    let idx = new.len().saturating_sub(1).min(*new_index);
-                    push_or_merge_range(&mut result, idx..idx + 1);
+                    let idx = new_chars_count.saturating_sub(1).min(*new_index);
+                    let start = byte_at(idx);
+                    push_or_merge_range(&mut result, start..byte_at(idx + 1).max(start + 1));
                 }
             }
             DiffOp::Insert {
                 new_index, new_len, ..
             } => {
-                push_or_merge_range(&mut result, *new_index..(new_index + new_len));
+                push_or_merge_range(
+                    &mut result,
+                    byte_at(*new_index)..byte_at(new_index + new_len),
+                );
             }
             DiffOp::Replace {
                 new_index, new_len, ..
             } => {
-                push_or_merge_range(&mut result, *new_index..(new_index + new_len));
+                push_or_merge_range(
+                    &mut result,
+                    byte_at(*new_index)..byte_at(new_index + new_len),
+                );
             }
             DiffOp::Equal { .. } => {}
         }
